@@ -31,6 +31,8 @@ PathTab ==
    pmd  |-> [text |-> "/md/{v}",      segs |-> <<Lit("md"), Par("v")>>],
    pdup2 |-> [text |-> "/d/{a}/{b}/{a}/{b}", segs |-> <<Lit("d"), Par("a"), Par("b"), Par("a"), Par("b")>>],
    pdr  |-> [text |-> "/dr",          segs |-> <<Lit("dr")>>],
+   prb  |-> [text |-> "/rb",          segs |-> <<Lit("rb")>>],
+   ptt  |-> [text |-> "/tt",          segs |-> <<Lit("tt")>>],
    pempty |-> [text |-> "/e/{}",      segs |-> <<Lit("e"), Par("")>>]]
 PathIds == DOMAIN PathTab
 
